@@ -30,6 +30,48 @@ UNITS = {
 }
 
 
+class DualF:
+    """Dual numbers over Fractions: exact forward-mode derivative propagation for the oracle."""
+    __slots__ = ('re', 'du')
+
+    def __init__(self, re, du=0):
+        self.re = F(re)
+        self.du = F(du)
+
+    @staticmethod
+    def lift(x):
+        return x if isinstance(x, DualF) else DualF(x)
+
+    def __add__(self, o):
+        o = DualF.lift(o)
+        return DualF(self.re + o.re, self.du + o.du)
+    __radd__ = __add__
+
+    def __neg__(self):
+        return DualF(-self.re, -self.du)
+
+    def __sub__(self, o):
+        return self + (-DualF.lift(o))
+
+    def __rsub__(self, o):
+        return DualF.lift(o) + (-self)
+
+    def __mul__(self, o):
+        o = DualF.lift(o)
+        return DualF(self.re * o.re, self.du * o.re + self.re * o.du)
+    __rmul__ = __mul__
+
+    def __pow__(self, k):
+        r = DualF(1)
+        for _ in range(int(k)):
+            r = r * self
+        return r
+
+
+def _val(v):
+    return v if isinstance(v, (DualF, Fraction)) else unrat(v)
+
+
 def unit_conv(src_units, tgt_units):
     """(factor, offset) with  tgt_value = (src_value + offset) * factor  (exact)."""
     if src_units is None or tgt_units is None or src_units == tgt_units:
@@ -189,8 +231,8 @@ def poly_eval(terms, xs):
     for t in terms:
         v = unrat(t['c'])
         for e, p in t['mon']:
-            v *= xs[e] ** p
-        tot += v
+            v = v * xs[e] ** p
+        tot = tot + v
     return tot
 
 
@@ -476,14 +518,14 @@ def exact_state(md, overrides=None):
         if c['kind'] == 'ivc':
             for od in c['outs']:
                 key = p + '.' + od['name']
-                outs[key] = [unrat(v) for v in overrides.get(key, od['val'])]
+                outs[key] = [_val(v) for v in overrides.get(key, od['val'])]
             continue
         xs = []
         for idef in c['ins']:
             cn = conn_by_tgt[(ci, idef['name'])]
             key = p + '.' + idef['name']
             if cn['src'] is None:
-                vals = [unrat(v) for v in overrides.get(key, cn['val'])]
+                vals = [_val(v) for v in overrides.get(key, cn['val'])]
             else:
                 sci, soname = cn['src']
                 sc = md['comps'][sci]
@@ -659,10 +701,14 @@ def build_problem(md, log=None, cfg=None):
             cd = dict(c)
             if cfg.get('partials'):
                 cd['partials'] = cfg['partials']
+            if cfg.get('jac') and cd.get('partials') == 'matfree':
+                # an assembled jacobian rejects matrix-free components by design
+                cd['partials'] = 'dense'
             cls = PolyCompMF if cd.get('partials') == 'matfree' else PolyComp
             comp = cls(cdef=cd, log=log)
         gobj[c['group']].add_subsystem(c['name'], comp)
         cobj[ci] = comp
+    _apply_solver_cfg(om, model, gobj, cfg)
     # output promotion to the root with unchanged names
     for ci, c in enumerate(md['comps']):
         if c['promote_outs']:
@@ -712,6 +758,42 @@ def build_problem(md, log=None, cfg=None):
             kw['flat_src_indices'] = bool(cn['chain'][e]['flat'])
         model.connect(src_root, tgt_root, **kw)
     return p, {'groups': gobj, 'comps': cobj}
+
+
+def _apply_solver_cfg(om, model, gobj, cfg):
+    """cfg['linear'] in {None,'runonce','direct','direct_asm','krylov','lbgs','lbjac'}, applied at the
+    root; cfg['sub_linear'] the same for every sub-group; cfg['jac'] in {None,'dense','csc','csr'}."""
+    def mk(kind):
+        if kind == 'direct':
+            return om.DirectSolver(assemble_jac=False)
+        if kind == 'direct_asm':
+            return om.DirectSolver(assemble_jac=True)
+        if kind == 'krylov':
+            s = om.ScipyKrylov(assemble_jac=bool(cfg.get('jac')))
+            s.options['atol'] = 1e-14
+            s.options['rtol'] = 1e-14
+            s.options['maxiter'] = 500
+            return s
+        if kind == 'lbgs':
+            return om.LinearBlockGS(atol=1e-14, rtol=1e-14, maxiter=200)
+        if kind == 'lbjac':
+            return om.LinearBlockJac(atol=1e-14, rtol=1e-14, maxiter=400)
+        if kind == 'runonce':
+            return om.LinearRunOnce()
+        return None
+    if cfg.get('jac'):
+        model.options['assembled_jac_type'] = cfg['jac']
+    ls = mk(cfg.get('linear'))
+    if ls is not None:
+        model.linear_solver = ls
+    for path, g in gobj.items():
+        if path == '':
+            continue
+        ls = mk(cfg.get('sub_linear'))
+        if ls is not None:
+            g.linear_solver = ls
+            if cfg.get('jac'):
+                g.options['assembled_jac_type'] = cfg['jac']
 
 
 def set_auto_ivc_values(p, md):
@@ -840,3 +922,177 @@ def flat_spec(md, positions=None):
                       'in_slices': [[idef['name'], in_off[j], int(np.prod(idef['shape']))]
                                     for j, idef in enumerate(c['ins'])]})
     return {'n': n, 'u0': [rat(v) for v in u0], 'comps': comps}
+
+
+# ------------------------------------------------------------------------------------------------
+# design variables / responses and the totals spec
+
+def _rand_scaling(rng):
+    k = rng.choice(['none', 'none', 'scaler', 'scaler_adder', 'ref', 'ref_ref0'])
+    POW = [F(1, 4), F(1, 2), F(2), F(4), F(-1), F(-2), F(8)]
+    sc = {}
+    if k in ('scaler', 'scaler_adder'):
+        sc['scaler'] = rat(rng.choice(POW))
+    if k == 'scaler_adder':
+        sc['adder'] = rat(F(rng.randint(-8, 8), 2))
+    if k == 'ref':
+        sc['ref'] = rat(rng.choice(POW))
+    if k == 'ref_ref0':
+        r0 = F(rng.randint(-8, 8), 2)
+        sc['ref0'] = rat(r0)
+        sc['ref'] = rat(r0 + rng.choice(POW))
+    return sc
+
+
+def scaling_to_scaler(sc):
+    """(scaler, adder) as Fractions: v_driver = (v + adder) * scaler."""
+    if 'ref' in sc:
+        ref = unrat(sc['ref'])
+        ref0 = unrat(sc.get('ref0', '0/1'))
+        return 1 / (ref - ref0), -ref0
+    return unrat(sc.get('scaler', '1/1')), unrat(sc.get('adder', '0/1'))
+
+
+def gen_voi(rng, md, units=True, scaling=True):
+    """Random design variables (IVC outputs) and responses (explicit outputs)."""
+    ivc_outs = [(ci, od) for ci, c in enumerate(md['comps']) if c['kind'] == 'ivc' for od in c['outs']]
+    exp_outs = [(ci, od) for ci, c in enumerate(md['comps']) if c['kind'] == 'explicit'
+                for od in c['outs']]
+    rng.shuffle(ivc_outs)
+    rng.shuffle(exp_outs)
+    dvs, resps = [], []
+
+    def pick_idx(shape):
+        size = int(np.prod(shape))
+        r = rng.random()
+        if r < 0.4 or size == 1:
+            return None
+        k = rng.randint(1, min(size, 3))
+        return sorted(rng.sample(range(size), k)) if rng.random() < 0.5 else \
+            rng.sample(range(size), k)
+    for ci, od in ivc_outs[:rng.randint(1, 2)]:
+        d = {'ci': ci, 'oname': od['name'], 'indices': pick_idx(od['shape']),
+             'units': compatible_units(rng, od['units']) if units and rng.random() < 0.4 else None,
+             'scaling': _rand_scaling(rng) if scaling else {}}
+        dvs.append(d)
+    for ci, od in exp_outs[:rng.randint(1, 3)]:
+        d = {'ci': ci, 'oname': od['name'], 'indices': pick_idx(od['shape']),
+             'units': compatible_units(rng, od['units']) if units and rng.random() < 0.4 else None,
+             'scaling': _rand_scaling(rng) if scaling else {}}
+        resps.append(d)
+    return {'desvars': dvs, 'responses': resps}
+
+
+def voi_positions(md, v):
+    c = md['comps'][v['ci']]
+    od = [o for o in c['outs'] if o['name'] == v['oname']][0]
+    size = int(np.prod(od['shape']))
+    return list(range(size)) if v['indices'] is None else list(v['indices']), od
+
+
+def voi_scaler(md, v):
+    """total multiplicative factor d(driver value)/d(model value) and the unit factor alone."""
+    pos, od = voi_positions(md, v)
+    fac, off = unit_conv(od['units'], v['units']) if v['units'] else (F(1), F(0))
+    s, a = scaling_to_scaler(v['scaling'])
+    return fac * s, fac
+
+
+def add_voi(p, md, voi):
+    """Declare the design variables and responses on the real model."""
+    model = p.model
+    for kind, lst in (('dv', voi['desvars']), ('con', voi['responses'])):
+        for v in lst:
+            name = out_root_name(md, v['ci'], v['oname'])
+            kw = {}
+            if v['indices'] is not None:
+                kw['indices'] = list(v['indices'])
+                kw['flat_indices'] = True
+            if v['units']:
+                kw['units'] = v['units']
+            for k, val in v['scaling'].items():
+                kw[k] = float(unrat(val))
+            if kind == 'dv':
+                model.add_design_var(name, **kw)
+            else:
+                model.add_constraint(name, lower=-1e30, upper=1e30, **kw)
+            v['name'] = name
+
+
+def exact_totals(md, voi):
+    """Exact Jacobian d(responses)/d(desvars) in model units by dual-number propagation
+    (Fractions), rows/cols in declaration order with indices applied."""
+    cols = []
+    for v in voi['desvars']:
+        pos, od = voi_positions(md, v)
+        key = comp_path(md['comps'][v['ci']]) + '.' + v['oname']
+        for q in pos:
+            ov = {key: [DualF(unrat(x), 1 if e == q else 0) for e, x in enumerate(od['val'])]}
+            outs, ins = exact_state(md, ov)
+            col = []
+            for r in voi['responses']:
+                rpos, rod = voi_positions(md, r)
+                rkey = comp_path(md['comps'][r['ci']]) + '.' + r['oname']
+                for t in rpos:
+                    x = outs[rkey][t]
+                    col.append(x.du if isinstance(x, DualF) else F(0))
+            cols.append(col)
+    nrows = len(cols[0]) if cols else 0
+    return [[cols[l][i] for l in range(len(cols))] for i in range(nrows)]
+
+
+def totals_spec(md, voi):
+    """Wire format of the Lean `totals` op."""
+    off, aoff, n = flat_layout(md)
+    spec = flat_spec(md)
+    outs, ins = exact_state(md)
+    # parameters: one per design-variable element
+    param_of = {}
+    xvals = []
+    for v in voi['desvars']:
+        pos, od = voi_positions(md, v)
+        base = off[(v['ci'], v['oname'])]
+        for q in pos:
+            if base + q not in param_of:
+                param_of[base + q] = len(xvals)
+                xvals.append(unrat(od['val'][q]))
+    L = len(xvals)
+    u = [None] * n
+    for ci, c in enumerate(md['comps']):
+        for od in c['outs']:
+            key = comp_path(c) + '.' + od['name']
+            for e, x in enumerate(outs[key]):
+                u[off[(ci, od['name'])] + e] = x
+    for k, cn in enumerate(md['conns']):
+        if cn['src'] is None:
+            for e, x in enumerate(cn['val']):
+                u[aoff[k] + e] = unrat(x)
+    resid = [None] * n
+    for k in range(n):
+        if k in param_of:
+            resid[k] = ["+", ["v", k], ["-", ["v", n + param_of[k]]]]
+    ins_all = []
+    for c in spec['comps']:
+        base_in = n + L + len(ins_all)
+
+        def shift(e):
+            if e[0] == 'v':
+                return ["v", base_in + e[1]]
+            if e[0] == 'c':
+                return e
+            return [e[0]] + [shift(a) for a in e[1:]]
+        ins_all.extend(c['ins'])
+        for t, poly in enumerate(c['polys']):
+            resid[c['start'] + t] = ["+", ["v", c['start'] + t], ["-", shift(poly)]]
+    for k in range(n):
+        if resid[k] is None:
+            resid[k] = ["+", ["v", k], ["c", rat(-u[k])]]
+    of, wrt = [], []
+    for r in voi['responses']:
+        pos, od = voi_positions(md, r)
+        of.extend(off[(r['ci'], r['oname'])] + q for q in pos)
+    for v in voi['desvars']:
+        pos, od = voi_positions(md, v)
+        wrt.extend(param_of[off[(v['ci'], v['oname'])] + q] for q in pos)
+    return {'op': 'totals', 'n': n, 'L': L, 'ins': ins_all, 'resid': resid,
+            'env': [rat(x) for x in u] + [rat(x) for x in xvals], 'of': of, 'wrt': wrt}
